@@ -40,7 +40,7 @@ def property_theorems(prop):
     return [prefix + m.group(1) for m in re.finditer(r"^theorem\s+([^\s:({\[]+)", src, re.M)]
 
 
-def build_and_audit(prop, thorough=False):
+def build_and_audit(prop, thorough=False, extra_targets=()):
     """returns dict(ok, stage, log, theorems, axioms, tables_changed, table_error)"""
     res = {"ok": False, "stage": "tables", "log": "", "theorems": [], "axioms": {}, "tables_changed": False}
     try:
@@ -55,7 +55,7 @@ def build_and_audit(prop, thorough=False):
         return res
     res["stage"] = "build"
     mod = f"Xsm.Properties.{prop}"
-    rc, out = sh(["lake", "build", mod, "driver"], cwd=LEAN_DIR)
+    rc, out = sh(["lake", "build", mod, "driver", *extra_targets], cwd=LEAN_DIR)
     if rc != 0:
         res["log"] = out[-6000:]
         # which declaration failed?
